@@ -313,3 +313,101 @@ package server
 //@   ensures [C19:refresh_nonobject] len(result) > 0 && !typeis(result[0], "map[string]interface{}") ==> s.settings.Completion.MaxResults == old(s.settings.Completion.MaxResults) && s.settings.Formatting.IndentSize == old(s.settings.Formatting.IndentSize) && s.settings.Features == old(s.settings.Features) && s.settings.Diagnostics == old(s.settings.Diagnostics)
 //@   ensures [C19:refresh_unsupported] !old(s.supportsConfiguration) ==> s.settings == old(s.settings)
 //@   modifies s.settings, s.cliClient
+
+// ---- C16: matching, filtering and the result limit of completion ----
+// emb(p, j, t, i): the first j runes of p occur, in order, among the first i runes of t (subsequence embedding).
+
+//@ specdef embs(p string, j int, t string, i int) bool := ite(j <= 0, true, ite(i <= 0, false, embs(p, j, t, i - 1) || (embs(p, j - 1, t, i - 1) && runeat(p, j - 1) == runeat(t, i - 1))))
+//@ lemma embs_mono(p string, j int, t string, i int, i2 int) induct i2 := {embs(p, j, t, i); embs(p, j, t, i2)} 0 <= i && i <= i2 && embs(p, j, t, i) ==> embs(p, j, t, i2)
+
+//@ func fuzzyMatchScore
+//@   props C16 C06
+//@   ensures [empty] pattern == "" ==> result == 1000
+//@   ensures [nonneg] result >= 0
+//@   ensures [C16:sound] old(pattern) != "" && result > 0 ==> embs(tolower(old(pattern)), rcount(tolower(old(pattern))), tolower(old(text)), rcount(tolower(old(text))))
+//@   ensures [C16:prefix_complete] old(pattern) != "" && rcount(tolower(old(pattern))) <= rcount(tolower(old(text))) && (forall k int :: 0 <= k && k < rcount(tolower(old(pattern))) ==> runeat(tolower(old(pattern)), k) == runeat(tolower(old(text)), k)) ==> result > 0
+//@   loop 1 invariant 0 <= i && i <= len(textRunes) && 0 <= j && j <= len(patternRunes) && j <= i && score >= 10 * j && score >= 0 && consecutiveBonus >= 0
+//@   loop 1 invariant pattern == tolower(old(pattern)) && text == tolower(old(text)) && len(patternRunes) == rcount(pattern) && len(textRunes) == rcount(text) && len(patternRunes) > 0
+//@   loop 1 invariant forall k int :: 0 <= k && k < len(patternRunes) ==> patternRunes[k] == runeat(pattern, k)
+//@   loop 1 invariant forall k int :: 0 <= k && k < len(textRunes) ==> textRunes[k] == runeat(text, k)
+//@   loop 1 invariant embs(pattern, j, text, i)
+//@   loop 1 invariant (forall k int :: 0 <= k && k < len(patternRunes) && k < len(textRunes) ==> runeat(pattern, k) == runeat(text, k)) ==> j == ite(i <= len(patternRunes), i, len(patternRunes))
+//@   loop 1 decreases len(textRunes) - i
+
+//@ specdef keepP(it protocol.CompletionItem, q string) bool := hasprefix(tolower(it.Label), q)
+//@ specdef fltP(its []protocol.CompletionItem, i int, q string) int := ite(i <= 0, 0, fltP(its, i - 1, q) + ite(keepP(its[i - 1], q), 1, 0))
+//@ lemma fltP_nonneg(its []protocol.CompletionItem, i int, q string) induct i := {fltP(its, i, q)} fltP(its, i, q) >= 0
+//@ lemma fltP_lt(its []protocol.CompletionItem, j int, i int, q string) induct i := {fltP(its, j, q); fltP(its, i, q)} 0 <= j && j < i && keepP(its[j], q) ==> fltP(its, j, q) < fltP(its, i, q)
+
+// Prefix mode (fuzzy matching off): exactly the items whose label starts with the query, case-insensitively, in their order.
+//@ func filterByPrefix
+//@   props C16 C06
+//@   ensures [C16:prefix_len] len(result) == fltP(items, len(items), tolower(query))
+//@   ensures [C16:prefix_sound] forall k int :: 0 <= k && k < len(result) ==> keepP(result[k].item, tolower(query)) && result[k].score == 1000
+//@   ensures [C16:prefix_complete] forall j int :: {items[j]} 0 <= j && j < len(items) && keepP(items[j], tolower(query)) ==> result[fltP(items, j, tolower(query))].item == items[j]
+//@   loop 1 invariant 0 - 1 <= rangeindex && rangeindex <= len(items) - 1 && queryLower == tolower(query) && len(result) == fltP(items, rangeindex + 1, queryLower)
+//@   loop 1 invariant forall k int :: 0 <= k && k < len(result) ==> keepP(result[k].item, queryLower) && result[k].score == 1000
+//@   loop 1 invariant forall j int :: {items[j]} 0 <= j && j <= rangeindex && keepP(items[j], queryLower) ==> result[fltP(items, j, queryLower)].item == items[j]
+
+//@ func fuzzyMatchScoreBySegments
+//@   props C16 C06
+//@   ensures [empty] pattern == "" ==> result == 1000
+//@   ensures [nonneg] result >= 0
+//@   loop 1 invariant 0 - 1 <= rangeindex && bestScore >= 0
+
+// Every item that survives the filter matches the query (score > 0); with nothing typed every item survives with the
+// neutral score, so the ranking is by frequency only.
+//@ func filterAndScoreFuzzyMatch
+//@   props C16 C06
+//@   ensures [C16:empty_keeps_all] query == "" ==> len(result) == len(items) && (forall k int :: 0 <= k && k < len(items) ==> result[k].item == items[k] && result[k].score == 1000)
+//@   ensures [C16:kept_match] forall k int :: 0 <= k && k < len(result) ==> result[k].score > 0
+//@   ensures [C16:prefix_mode] query != "" && !fuzzyEnabled ==> len(result) == fltP(items, len(items), tolower(query)) && (forall j int :: {items[j]} 0 <= j && j < len(items) && keepP(items[j], tolower(query)) ==> result[fltP(items, j, tolower(query))].item == items[j])
+//@   loop 1 invariant 0 - 1 <= rangeindex && rangeindex <= len(items) - 1 && len(result) == len(items) && fresh(result)
+//@   loop 1 invariant forall k int :: 0 <= k && k <= rangeindex ==> result[k].item == items[k] && result[k].score == 1000
+//@   loop 2 invariant 0 - 1 <= rangeindex
+//@   loop 2 invariant forall k int :: 0 <= k && k < len(result) ==> result[k].score > 0
+
+// ---- completion byte helpers (C06: every index and slice in bounds) and the edit range of an item (C08/C16) ----
+
+//@ func findDoublespace
+//@   props C06 C16
+//@   effects none
+//@   ensures [range] 0 - 1 <= result && (result >= 0 ==> result + 1 < len(s))
+//@   loop 1 invariant 0 <= i
+//@   loop 1 decreases len(s) - i
+
+//@ func findAmountEnd
+//@   props C06 C16
+//@   effects none
+//@   ensures [range] 0 <= result && result <= len(s)
+//@   loop 1 invariant 0 <= i && i <= len(s)
+//@   loop 1 decreases len(s) - i
+//@   loop 2 invariant 0 <= i && i <= len(s)
+//@   loop 2 decreases len(s) - i
+//@   loop 3 invariant 0 <= i && i <= len(s)
+//@   loop 3 decreases len(s) - i
+
+//@ func parsePosting
+//@   props C06 C16
+//@   effects none
+//@   ensures [range] 0 <= result.indent && result.indent <= len(line) && 0 - 1 <= result.separatorIdx
+//@   ensures [parts] result.separatorIdx >= 0 ==> result.skipSpaces >= 0 && result.amountEnd >= 0 && result.indent + result.separatorIdx + result.skipSpaces + result.amountEnd <= len(line)
+
+//@ func findCommodityStart
+//@   props C06 C16
+//@   effects none
+//@   requires 0 <= byteCol && byteCol <= len(line)
+//@   ensures [range] 0 <= result && result <= len(line)
+//@   loop 1 invariant 0 <= commodityStart && commodityStart <= len(line)
+//@   loop 1 decreases len(line) - commodityStart
+
+// The edit of a completion item replaces only the typed fragment up to the cursor: it stays on the cursor line, ends at
+// the cursor and does not start after it (byte offsets in the line; the UTF-16 step is ByteOffsetToUTF16).
+//@ func calculateTextEditRange
+//@   props C06 C08 C16
+//@   requires len(content) < 4294967296
+//@   ensures [C08,C16:same_line] result != nil ==> result.Start.Line == pos.Line && result.End == pos
+//@   ensures [C08,C16:start_le_cursor] result != nil ==> 0 <= startByte && startByte <= byteCol
+//@   ensures [C08,C16:start_utf16] result != nil ==> result.Start.Character == b2u(line, 0, 0, startByte)
+//@   loop 1 invariant 0 <= startByte && startByte <= byteCol && byteCol <= len(line)
+//@   loop 1 decreases byteCol - startByte
